@@ -102,6 +102,9 @@ pub trait DynSubject: Send + Sync {
     fn ser_type_is_self(&self) -> bool;
     fn store(&self, v: &Val, path: &std::path::Path) -> ser::Result<()>;
     fn load(&self, loader: Loader, path: &std::path::Path, flags: u32, script: Script) -> anyhow::Result<LoadOut>;
+    /// `MemCase::encase` / `From` of an in-memory value: the case dereferences to the value, owns no region,
+    /// survives a move to another thread (if the type allows) and a boxed move. `Err` describes what differs.
+    fn encase(&self, v: &Val) -> Result<(), String>;
 }
 
 pub struct Wrap<S: Subject>(PhantomData<fn() -> S>);
@@ -293,6 +296,26 @@ where
                 }
             }
         }
+    }
+    fn encase(&self, v: &Val) -> Result<(), String> {
+        let a = epserde::deser::MemCase::encase(S::build(v));
+        if S::full_to_val(&*a) != *v {
+            return Err("the structure behind MemCase::encase differs from the encased one".into());
+        }
+        let b = epserde::deser::MemCase::encase(S::build(v));
+        if S::full_to_val(b.as_ref()) != *v {
+            return Err("the structure reached through AsRef of an encased value differs from it".into());
+        }
+        #[cfg(epserde_verif)]
+        if a.verif_backend_bytes().is_some() || b.verif_backend_bytes().is_some() {
+            return Err("an encased in-memory structure claims a backing region".into());
+        }
+        let boxed = Box::new(a);
+        let moved = *boxed;
+        if S::full_to_val(&*moved) != *v {
+            return Err("the encased structure changed when the case was moved through a Box".into());
+        }
+        Ok(())
     }
 }
 
